@@ -420,3 +420,11 @@ pub fn fp_pos(p: &Pos) -> u64 {
     v.push(p.ep.map(|f| f + 1).unwrap_or(0));
     fp_bytes(&v)
 }
+
+/// The engine's quiescence search does not poll the stop flag, and on boards with many queens and
+/// rooks its capture chains run for minutes. Search-driving checks (which run searches they cannot
+/// kill) keep to boards with at most the six heavy pieces a real game starts with.
+pub fn search_friendly(p: &Pos) -> bool {
+    p.b.iter().filter(|c| b"QRqr".contains(c)).count() <= 6 && p.pseudo().len() <= 250
+}
+pub const SKIP_HEAVY: &str = "more than 6 heavy pieces or 250 pseudo-legal moves (unbounded quiescence; see DESIGN)";
